@@ -170,6 +170,53 @@ def run_real(ops):
     return obs, oracle_fail
 
 
+def concurrent_registration(ctx):
+    """workers are created by one thread while others are inside (slow) active_children() scans: none may be lost"""
+    from pyworkers.worker import Worker
+    from pyworkers.thread import ThreadWorker
+
+    class SlowAlive(ThreadWorker):
+        def is_alive(self):
+            if threading.current_thread().name.startswith('scanner'):
+                time.sleep(0.002)
+            return super().is_alive()
+    with Worker._children_lock:
+        Worker._active_children = []
+    stop = threading.Event()
+
+    def scanner():
+        while not stop.is_set():
+            list(Worker.active_children())
+            time.sleep(0.004)        # (give the creating thread a chance to take the registry lock)
+    ts = [threading.Thread(target=scanner, daemon=True, name=f'scanner{i}') for i in range(2)]
+    evs, ws = [], []
+    for _ in range(8):
+        ev = threading.Event()
+        ws.append(SlowAlive(coop_wait, args=(ev,)))
+        evs.append(ev)
+    for t in ts:
+        t.start()
+    for _ in range(25):
+        ev = threading.Event()
+        ws.append(SlowAlive(coop_wait, args=(ev,)))
+        evs.append(ev)
+        time.sleep(0.003)
+    stop.set()
+    for t in ts:
+        t.join(5)
+    out = list(Worker.active_children())
+    lost = [i for i, w in enumerate(ws) if w.is_alive() and not any(w is c for c in out)]
+    for ev in evs:
+        ev.set()
+    for w in ws:
+        w.wait(5)
+    ctx.case(('concurrent-registration', len(ws)), True, sample={'concurrent_registration_workers': len(ws), 'lost': lost})
+    if lost:
+        ctx.fail('concurrent:registration-lost', f'{len(lost)} of {len(ws)} live workers created while other threads were inside active_children() are no longer listed', {'kind': 'concurrent_registration', 'lost_indices': lost})
+    with Worker._children_lock:
+        Worker._active_children = []
+
+
 def concurrent_stress(ctx, seconds):
     """several threads call active_children() while the main thread creates and finishes workers"""
     from pyworkers.worker import Worker
@@ -259,6 +306,7 @@ def main(ctx: Ctx):
             if not ok:
                 ctx.broke('correspondence', 'Registry.run vs Worker registry', f'ops={to_line(ops)[:400]}\n model={mo[:20]}\n impl ={obs[:20]}')
     concurrent_stress(ctx, 2 if not T else 10)
+    concurrent_registration(ctx)
 
 
 def replay(case):
